@@ -234,6 +234,35 @@ def cell_means_divisible(mask, subaps):
     return m.mean(axis=(1, 3)), k
 
 
+@st.composite
+def rect_cases(draw):
+    subaps = draw(st.integers(1, 7))
+    kx, ky = draw(st.integers(1, 6)), draw(st.integers(1, 6))
+    mask = draw(gen.int_array((subaps * kx, subaps * ky), 0, 16)).astype(np.float64) / 16.0
+    if draw(st.booleans()):
+        mask = (mask > 0.4).astype(draw(st.sampled_from(["float64", "int64"])))
+    return {"subaps": subaps, "kx": kx, "ky": ky, "mask": mask, "tpick": draw(st.integers(0, 10**6)), "tfree": draw(gen.dyadic(0, 1, 4096)), "attained": draw(st.booleans())}
+
+
+def rect_body(ctx, case):
+    """Masks need not be square: an (n kx) x (n ky) mask has n x n cells of kx x ky pixels."""
+    _, wfslib = aot()
+    n, kx, ky, mask = case["subaps"], case["kx"], case["ky"], case["mask"]
+    means = np.array([[mask[x * kx:(x + 1) * kx, y * ky:(y + 1) * ky].mean() for y in range(n)] for x in range(n)])
+    att = sorted(set(means.ravel().tolist()))
+    t = att[case["tpick"] % len(att)] if case["attained"] else case["tfree"]
+    ctx.case({"subaps": n, "mask": mask, "t": t}, nontrivial=kx != ky, classes=["square_cells" if kx == ky else "rectangular_cells"])
+    m0 = mask.copy()
+    coords, fills = wfslib.findActiveSubaps(n, mask, t, returnFill=True)
+    ctx.equal(mask, m0, "findActiveSubaps modified the mask")
+    want_c = [[x * kx, y * ky] for x in range(n) for y in range(n) if means[x, y] >= t]
+    want_f = [means[x, y] for x in range(n) for y in range(n) if means[x, y] >= t]
+    ctx.require(len(coords) == len(want_c), "findActiveSubaps on a %s mask, %d sub-apertures, t=%r: %d cells selected, %d have mean >= threshold" % (mask.shape, n, t, len(coords), len(want_c)))
+    if want_c:
+        ctx.equal(np.asarray(coords, dtype=float), np.asarray(want_c, dtype=float), "findActiveSubaps coordinates on a rectangular mask")
+        ctx.equal(np.asarray(fills), np.asarray(want_f), "findActiveSubaps fill factors on a rectangular mask")
+
+
 def select_body(ctx, case):
     _, wfslib = aot()
     subaps, mask = case["subaps"], case["mask"]
@@ -367,5 +396,6 @@ LAWS = [
     given_law("circle_float", circle_float_cases(), circle_float_body, {"quick": 1500, "thorough": 20000}, shards={"quick": 3, "thorough": 16}),
     Law("circle_enum", circle_enum_run, replay=circle_enum_replay, shards={"quick": 10, "thorough": 14}),
     given_law("select", select_cases(), select_body, {"quick": 800, "thorough": 12500}, shards={"quick": 3, "thorough": 16}),
+    given_law("select_rectangular", rect_cases(), rect_body, {"quick": 400, "thorough": 2500}, shards={"quick": 2, "thorough": 16}),
     given_law("scatter", scatter_cases(), scatter_body, {"quick": 500, "thorough": 7500}, shards={"quick": 3, "thorough": 16}),
 ]
